@@ -23,21 +23,11 @@ Definition idem_target : node :=
 Definition idem_patch : node :=
   pod [("containers", Seq [Map [("$patch", Scalar TStr SPlain "delete")]])].
 
-Lemma idempotent_refuted :
-  exists p t r1 r2,
-    kmerge p t = Ok (Some r1) /\ kmerge p r1 = Ok (Some r2) /\ node_eqb r1 r2 = false.
-Proof.
-  exists idem_patch, idem_target. eexists. eexists.
-  split; [vm_compute; reflexivity|]. split; [vm_compute; reflexivity|]. vm_compute. reflexivity.
-Qed.
-
-(* the second application leaves the directive in the document *)
-Lemma idempotent_refuted_shape :
-  exists r1, kmerge idem_patch idem_target = Ok (Some r1) /\
-    kmerge idem_patch r1 =
-    Ok (Some (pod [("x", Scalar TInt SPlain "1");
-                   ("containers", Seq [Map [("$patch", Scalar TStr SPlain "delete")]])])).
-Proof. eexists. split; vm_compute; reflexivity. Qed.
+(* FIXED in /repo (fix: list-level directive on an absent list): the second application leaves the document as it is *)
+Lemma list_directive_idempotent :
+  exists r1, kmerge idem_patch idem_target = Ok (Some r1) /\ kmerge idem_patch r1 = Ok (Some r1) /\
+             r1 = pod [("x", Scalar TInt SPlain "1")].
+Proof. eexists. split; [vm_compute; reflexivity|]. split; vm_compute; reflexivity. Qed.
 
 (* ---- "$patch: replace" on an element of a keyed list is a no-op in prepend mode ---- *)
 Definition repl_target : node :=
